@@ -790,9 +790,111 @@ def contents_match(w):
     return deep_eq(w.content(), w.model())
 
 
+SUMMARY_CLASSES = ["SphericalDroplet", "DiffuseDroplet", "PerturbedDroplet2D", "PerturbedDroplet3D", "PerturbedDroplet3DAxisSym"]
+SUMMARY_RADII = {"spread": [1.0, 2.5, 0.4, 1.7], "near-equal": [10.0 + k * 1e-7 for k in range(4)], "equal": [0.3] * 4, "huge": [1e8 + k for k in range(4)], "with-vanished": [1.0, 0.0, 2.0, 0.0]}
+
+
+def summary_members(cls, dim, radii):
+    from droplets import droplets as dm
+
+    out = []
+    for i, r in enumerate(radii):
+        pos = np.array([1.0 + 2.0 * i, -0.5 * i, 0.25 * i][:dim]) if cls != "PerturbedDroplet3DAxisSym" else np.array([0.0, 0.0, 1.0 + 2.0 * i])
+        if cls == "SphericalDroplet":
+            out.append(dm.SphericalDroplet(pos, r))
+        elif cls == "DiffuseDroplet":
+            out.append(dm.DiffuseDroplet(pos, r, 0.1 * (i + 1)))
+        elif cls == "PerturbedDroplet2D":
+            out.append(dm.PerturbedDroplet2D(pos, r, 0.1 * (i + 1), [0.3 - 0.1 * i, 0.2, 0.0, -0.25][: 2 + 2 * 1]))
+        elif cls == "PerturbedDroplet3D":
+            out.append(dm.PerturbedDroplet3D(pos, r, 0.1 * (i + 1), [0.0, 0.2 - 0.05 * i, 0.1]))
+        else:
+            out.append(dm.PerturbedDroplet3DAxisSym(pos, r, 0.1 * (i + 1), [0.15, -0.1 * (i % 2)]))
+    return out
+
+
+def run_summary_classes(block, ctx):
+    """summary queries of an emulsion equal their definitions over the MEMBERS (each member's own volume / bounding box), for every
+    droplet class, every way of building the emulsion, every subset size"""
+    import copy
+    import pickle
+
+    from droplets import Emulsion
+
+    cls = block["cls"]
+    dims = {"SphericalDroplet": (1, 2, 3), "DiffuseDroplet": (1, 2, 3), "PerturbedDroplet2D": (2,)}.get(cls, (3,))
+    for dim in dims:
+        for rname, radii in SUMMARY_RADII.items():
+            for n in (0, 1, 2, 4):
+                for how in ("ctor", "append", "extend", "copy", "add", "slice", "pickle", "deepcopy"):
+                    case = {"explorer": "summary-classes", "cls": cls, "dim": dim, "radii": rname, "n": n, "how": how}
+                    ctx.begin(case)
+                    tags = {"explorer": "summary-classes", "cls": cls, "how": how}
+                    try:
+                        mem = summary_members(cls, dim, radii[:n])
+                        if how == "ctor":
+                            E = Emulsion(mem)
+                        elif how == "append":
+                            E = Emulsion()
+                            for d in mem:
+                                E.append(d)
+                        elif how == "extend":
+                            E = Emulsion()
+                            E.extend(mem)
+                        elif how == "copy":
+                            E = Emulsion(mem).copy()
+                        elif how == "add":
+                            E = Emulsion(mem[: n // 2]) + Emulsion(mem[n // 2:])
+                        elif how == "slice":
+                            E = Emulsion(mem + summary_members(cls, dim, [9.0]))[:n]
+                        elif how == "pickle":
+                            E = pickle.loads(pickle.dumps(Emulsion(mem)))
+                        else:
+                            E = copy.deepcopy(Emulsion(mem))
+                        ctx.op()
+                        try:
+                            vols = [float(d.volume) for d in mem]
+                        except NotImplementedError:
+                            vols = None
+                        if cls == "PerturbedDroplet2D":  # own formula as well: pi R^2 (1 + sum eps^2 / 2)
+                            own = [PI * d.radius**2 * (1 + float(np.sum(np.asarray(d.amplitudes) ** 2)) / 2) for d in mem]
+                            ctx.check("C20.summary", all(abs(a - b) <= 1e-12 * max(1.0, abs(b)) for a, b in zip(vols, own)), {"what": "member volume vs own formula", "got": vols, "want": own}, tags)
+                        radii_m = [float(d.radius) for d in mem]
+                        for incl in (True, False):
+                            keep = [i for i in range(n) if incl or radii_m[i] > 0]
+                            try:
+                                st = E.get_size_statistics(incl_vanished=incl)
+                            except NotImplementedError:
+                                ctx.check("C20.summary", vols is None, {"what": "size statistics raise although every member has a volume"}, tags)
+                                continue
+                            ok = st["count"] == len(keep)
+                            if n and keep:
+                                rr = [radii_m[i] for i in keep]
+                                ok = ok and abs(st["radius_mean"] - np.mean(rr)) <= 1e-12 * max(1, abs(np.mean(rr))) and abs(st["radius_std"] - np.std(rr)) <= 1e-12 * max(1, abs(np.mean(rr)))
+                                if vols is not None:
+                                    vv = [vols[i] for i in keep]
+                                    ok = ok and abs(st["volume_mean"] - np.mean(vv)) <= 1e-12 * max(1, abs(np.mean(vv))) and abs(st["volume_std"] - np.std(vv)) <= 1e-12 * max(1, abs(np.mean(vv)))
+                                ok = ok and all(math.isfinite(float(v)) for v in st.values())
+                            ctx.check("C20.summary", bool(ok), {"what": "size_statistics", "incl_vanished": incl, "got": {k: float(v) for k, v in st.items()}, "member_radii": radii_m, "member_volumes": vols}, tags)
+                        if vols is not None:
+                            tv = E.total_droplet_volume
+                            ctx.check("C20.summary", abs(tv - sum(vols)) <= 1e-12 * max(1.0, sum(vols)), {"what": "total_volume", "got": tv, "want": sum(vols)}, tags)
+                        if n:
+                            bb = np.asarray(E.bbox.bounds)
+                            mb = [np.asarray(d.bbox.bounds) for d in mem]
+                            lo, hi = np.min([b[:, 0] for b in mb], axis=0), np.max([b[:, 1] for b in mb], axis=0)
+                            ctx.check("C20.summary", bool(np.allclose(bb[:, 0], lo, rtol=1e-15, atol=1e-12) and np.allclose(bb[:, 1], hi, rtol=1e-15, atol=1e-12)), {"what": "bbox", "got": bb, "lo": lo, "hi": hi}, tags)
+                            ctx.check("C20.summary", len(E) == n and E.dim == dim, {"what": "len/dim"}, tags)
+                            ctx.check("C20.content", [val(d) for d in E] == [val(d) for d in mem], {"what": "members after " + how}, tags)
+                        ctx.count("summaries-of-perturbed-classes" if cls.startswith("Perturbed") else "summaries-of-spherical-classes")
+                    except Exception as e:  # noqa
+                        ctx.check("C20.no-raise", False, {"case": case, "exc": repr(e)[:300]}, tags, case=case)
+    ctx.states += ctx.cases
+
+
 def blocks(tier, seed):
     depth = 5 if tier == "thorough" else 4
-    out = []
+    out = [{"explorer": "summary-classes", "cls": c} for c in SUMMARY_CLASSES]
     for kind, (_, ops) in WORLDS.items():
         for op in ops:
             out.append({"explorer": kind, "first": op, "depth": depth})
@@ -802,6 +904,8 @@ def blocks(tier, seed):
 def run_block(block, ctx):
     import signal
 
+    if block["explorer"] == "summary-classes":
+        return run_summary_classes(block, ctx)
     kind, depth = block["explorer"], block["depth"]
     ops = WORLDS[kind][1]
     seen = set()
@@ -837,9 +941,11 @@ def run_block(block, ctx):
 
 def run_case(case, ctx):
     """replay of a single history (used by --replay)"""
+    if case.get("explorer") == "summary-classes":
+        return run_summary_classes({"cls": case["cls"]}, ctx)
     hist = case["hist"]
     step(case["explorer"], hist[:-1], hist[-1], ctx)
 
 
 def expected_positive(tier):
-    return ["C20.content", "C20.aligned", "C20.no-alias", "C20.reject", "C20.summary", "C20.no-raise", "bulk-additions-rejected"]
+    return ["C20.content", "C20.aligned", "C20.no-alias", "C20.reject", "C20.summary", "C20.no-raise", "bulk-additions-rejected", "summaries-of-perturbed-classes"]
